@@ -740,6 +740,67 @@ def tuning_script(rng, w):
 
             steps.append(faulted)
         steps.append(lambda r, wd: {"op": "run", "setup": si, "name": nm} if r.random() < 0.8 else {"op": "run_all", "setup": si})
+    if rng.random() < 0.2:
+        # parameters withdrawn: the gate must hold again, and setting them anew must make the algorithm runnable
+        steps.append(lambda r, wd: {"op": "set_params", "alg": ai, "params": None})
+        steps.append(lambda r, wd: {"op": "run", "setup": si, "name": nm})
+        steps.append(lambda r, wd: _set_params_op(r, wd, ai, twin=True))
+        steps.append(lambda r, wd: {"op": "run", "setup": si, "name": nm})
+    return steps
+
+
+def persist_script(rng, w):
+    """Directed class: work, (preprocess,) save and load, carry on with the loaded copy - what a loaded setup
+    does next (re-runs, extraction, the run gate) must be what the original would have done."""
+    homes = sorted({a["home"] for a in w["algs"]})
+    if not homes:
+        return []
+    si = rng.choice(homes)
+    mine = [i for i, a in enumerate(w["algs"]) if a["home"] == si]
+    k = rng.randint(1, len(mine))
+    first, rest = mine[:k], mine[k:]
+    nm = lambda i: w["algs"][i]["name"]  # noqa: E731
+    steps = [lambda r, wd: {"op": "add", "setup": si, "algs": first}]
+    if rng.random() < 0.65:
+        def pre(r, wd):
+            kind = r.choice(["detrend", "decimate", "filter"])
+            op = {"op": "preproc", "setup": si, "kind": kind}
+            if kind == "decimate":
+                op["q"] = 2
+            elif kind == "filter":
+                fs_now = float(getattr(wd.setups[si], "fs", w["fs"]))
+                op["Wn"] = round(0.4 * fs_now / 2 * r.uniform(0.6, 1.0), 5)
+                op["order"] = r.randint(2, 6)
+            return op
+
+        steps.append(pre)
+        if rest and rng.random() < 0.6:
+            steps.append(lambda r, wd: {"op": "add", "setup": si, "algs": rest})
+    before = rng.random()
+    if before < 0.4:
+        steps.append(lambda r, wd: {"op": "run_all", "setup": si})
+    elif before < 0.8:
+        t = rng.choice(first)
+        steps.append(lambda r, wd: {"op": "run", "setup": si, "name": nm(t)})
+        if rng.random() < 0.5:
+            steps.append(lambda r, wd: _mpe_op(r, wd, si, t))
+    if rng.random() < 0.75:
+        steps.append(lambda r, wd: {"op": "restart", "setup": si, "path": f"sim:/s{si}_a.pkl"})
+    else:
+        steps.append(lambda r, wd: {"op": "save", "setup": si, "path": f"sim:/s{si}_a.pkl"})
+        steps.append(lambda r, wd: {"op": "load_check", "path": f"sim:/s{si}_a.pkl"})
+    for _ in range(rng.randint(1, 3)):
+        t2 = rng.choice(first)
+        q = rng.random()
+        if q < 0.45:
+            steps.append(lambda r, wd, t2=t2: {"op": "run", "setup": si, "name": nm(t2)})
+        elif q < 0.6:
+            steps.append(lambda r, wd: {"op": "run_all", "setup": si})
+        elif q < 0.85:
+            steps.append(lambda r, wd, t2=t2: _mpe_op(r, wd, si, t2))
+        else:
+            steps.append(lambda r, wd, t2=t2: {"op": "set_params", "alg": t2, "params": None})
+            steps.append(lambda r, wd, t2=t2: {"op": "run", "setup": si, "name": nm(t2)})
     return steps
 
 
@@ -1630,6 +1691,9 @@ def run_case(seed, tier="quick", case=None, known=()):
         script = poser_script(rng, w) if w["mode"] == "poser" else []
         if not script and rng.random() < 0.25:
             script = tuning_script(rng, w)
+            swarm["epilogue"] = True
+        elif not script and rng.random() < 0.16:
+            script = persist_script(rng, w)
             swarm["epilogue"] = True
         if script:
             nops = len(script) + rng.randint(0, 2)
